@@ -28,6 +28,7 @@ type ModItem struct {
 	Src string
 	E   Expr // location expression; "x[..]" parsed as ESlice with nil bounds
 	All bool // "*"
+	AnyType, AnyField string // "any T.f"
 }
 
 type FuncContract struct {
@@ -382,6 +383,16 @@ func ParseContractFile(path, pkgPath string) (*ContractFile, error) {
 				}
 				if it == "*" {
 					cur.Modifies = append(cur.Modifies, ModItem{Src: it, All: true})
+					continue
+				}
+				if strings.HasPrefix(it, "any ") {
+					// any T.f : field f of every object of struct type T
+					tf := strings.TrimSpace(it[4:])
+					dot := strings.LastIndex(tf, ".")
+					if dot <= 0 {
+						return nil, fail(l, "modifies any T.field")
+					}
+					cur.Modifies = append(cur.Modifies, ModItem{Src: it, AnyType: tf[:dot], AnyField: tf[dot+1:]})
 					continue
 				}
 				src := strings.ReplaceAll(it, "[..]", "[:]")
